@@ -23,6 +23,8 @@ import (
 	"sort"
 	"strconv"
 	"strings"
+	"sync"
+	"time"
 	"unicode"
 	"unicode/utf8"
 
@@ -821,11 +823,21 @@ func stripX(src string) string {
 	return string(out)
 }
 
-// neutralise copies src and, INSIDE `#` comments only, replaces every rune of `set` by 'c';
-// with hashq it replaces a quantifier character that directly follows a comment's `#`.
-func neutralise(src string, set string, hashq bool) string {
+// neutralise copies src and defuses one suspected cause of an extended-mode disagreement:
+//   set    INSIDE `#` comments, every rune of set becomes 'c'
+//   hashq  a quantifier character directly after a comment's `#` becomes 'c'
+//   nlq    a quantifier character directly after the newline that ends a comment becomes 'c'
+//   wsq    a quantifier character directly after unescaped whitespace becomes 'c'
+//   lone   a `#` that is the last character of the text gets a 'c' appended
+type defuse struct {
+	set                   string
+	hashq, nlq, wsq, lone bool
+}
+
+func neutralise(src string, d defuse) string {
+	const quant = "*+?{"
 	rs := []rune(src)
-	out := make([]rune, 0, len(rs))
+	out := make([]rune, 0, len(rs)+1)
 	n := len(rs)
 	i := 0
 	for i < n {
@@ -866,13 +878,32 @@ func neutralise(src string, set string, hashq bool) string {
 			out = append(out, '#')
 			for j < n && rs[j] != '\n' {
 				switch {
-				case hashq && j == i+1 && strings.ContainsRune("*+?{", rs[j]):
+				case d.hashq && j == i+1 && strings.ContainsRune(quant, rs[j]):
 					out = append(out, 'c')
-				case strings.ContainsRune(set, rs[j]):
+				case strings.ContainsRune(d.set, rs[j]):
 					out = append(out, 'c')
 				default:
 					out = append(out, rs[j])
 				}
+				j++
+			}
+			if j >= n && j == i+1 && d.lone {
+				out = append(out, 'c')
+			}
+			if j < n { // the newline
+				out = append(out, '\n')
+				j++
+				if d.nlq && j < n && strings.ContainsRune(quant, rs[j]) {
+					out = append(out, 'c')
+					j++
+				}
+			}
+			i = j
+			continue
+		case unicode.IsSpace(c):
+			out = append(out, c)
+			if d.wsq && j < n && strings.ContainsRune(quant, rs[j]) {
+				out = append(out, 'c')
 				j++
 			}
 			i = j
@@ -885,7 +916,8 @@ func neutralise(src string, set string, hashq bool) string {
 	return string(out)
 }
 
-// which feature of the comments makes Transpile(src, f) differ from Transpile(strip_x(src), f-x)
+// which feature makes Transpile(src, f) differ from Transpile(strip_x(src), f-x): the first
+// single defusing that restores agreement names the cause
 func xCause(src string, f bitfield.BitField8) string {
 	g := f
 	g.UnsetFlag(flag.ExtendedFlag)
@@ -897,22 +929,24 @@ func xCause(src string, f bitfield.BitField8) string {
 		_, b := transpileHex(stripX(s), g)
 		return a == b
 	}
-	classes := []struct{ name, set string }{{"pipe", "|"}, {"paren", "()"}, {"bracket", "[]"}, {"quantifier", "*+?{}"}}
-	if agrees(neutralise(src, "", true)) {
-		return "hashq"
+	single := []struct {
+		name string
+		d    defuse
+	}{
+		{"hashq", defuse{hashq: true}}, {"lonehash", defuse{lone: true}}, {"pipe", defuse{set: "|"}}, {"paren", defuse{set: "()"}},
+		{"bracket", defuse{set: "[]"}}, {"quantifier", defuse{set: "*+?{}"}}, {"backslash", defuse{set: "\\"}}, {"nlq", defuse{nlq: true}}, {"wsq", defuse{wsq: true}},
 	}
-	for _, c := range classes {
-		if agrees(neutralise(src, c.set, false)) {
+	for _, c := range single {
+		if agrees(neutralise(src, c.d)) {
 			return c.name
 		}
 	}
-	if agrees(neutralise(src, "|()[]*+?{}\\^$", true)) {
-		for _, c := range classes {
-			if neutralise(src, c.set, false) != src {
+	if agrees(neutralise(src, defuse{set: "|()[]*+?{}\\^$", hashq: true, nlq: true, wsq: true, lone: true})) {
+		for _, c := range single {
+			if neutralise(src, c.d) != src {
 				return "multi-" + c.name
 			}
 		}
-		return "multi-hashq"
 	}
 	return "other"
 }
@@ -922,7 +956,31 @@ var xGroupRe = regexp.MustCompile(`\(\?[A-Za-z-]*x`)
 // the lexer never returns from an unterminated `(?#` comment group (reported under C03)
 func wouldHang(src string) bool {
 	i := strings.LastIndex(src, "(?#")
-	return i >= 0 && !strings.Contains(src[i:], ")")
+	return i >= 0 && !strings.Contains(src[i:], ")") && lexerHangs()
+}
+
+// probed once, and only when such a source shows up: does regex.Transpile("(?#") return?
+// (with fixes/C03-regex-unterminated-comment.patch it does, and these inputs run normally)
+var hangProbe struct {
+	once  sync.Once
+	hangs bool
+}
+
+func lexerHangs() bool {
+	hangProbe.once.Do(func() {
+		done := make(chan struct{})
+		go func() {
+			defer func() { recover(); close(done) }()
+			regex.Transpile("(?#", bitfield.BitField8{})
+		}()
+		select {
+		case <-done:
+			hangProbe.hangs = false
+		case <-time.After(10 * time.Second):
+			hangProbe.hangs = true
+		}
+	})
+	return hangProbe.hangs
 }
 
 // ---------------------------------------------------------------- running the implementation
@@ -942,7 +1000,19 @@ func observe(src string, f bitfield.BitField8, subjects []string, xref string) s
 	return hx.Guard(func() string {
 		text, th := transpileHex(src, f)
 		if xref != "-" && th != "ERR" && th != xref {
-			xref += ";xcause=" + xCause(src, f)
+			cause := xCause(src, f)
+			xm := ""
+			if cause == "wsq" && xref != "ERR" {
+				// dropped whitespace with a quantifier: `( ?)` -> `(?)`; the texts may differ harmlessly,
+				// so the stripped source's matcher is run on the same subjects
+				if xre, err := regexp.Compile(hx2s(xref)); err == nil {
+					xm = ";xm="
+					for _, s := range subjects {
+						xm += b01(xre.MatchString(s))
+					}
+				}
+			}
+			xref += ";xcause=" + cause + xm
 		}
 		if th == "ERR" {
 			return "text=ERR;go=err;m=-;xref=" + xref
